@@ -62,6 +62,9 @@ pub use mmap::{Error, GuestMemoryMmap, GuestRegionMmap, MmapRegion};
 pub use mmap::{MmapRange, MmapXenFlags};
 
 pub mod volatile_memory;
+
+#[cfg(vm_memory_verif)]
+pub mod verif_hooks;
 pub use volatile_memory::{
     Error as VolatileMemoryError, Result as VolatileMemoryResult, VolatileArrayRef, VolatileMemory,
     VolatileRef, VolatileSlice,
